@@ -13,6 +13,7 @@ From SV Require Import Lib.Base Gen.Consts.
 From SV Require Import Model.Seq32 Model.Assembler Model.TcpBuf Model.TcpTypes Model.Tcp.
 From SV Require Import Proofs.TcpSendBase Proofs.TcpSendInv Proofs.TcpLiveBase Proofs.TcpLiveProofs.
 From SV Require Import Proofs.TcpBurstBase Proofs.TcpBurstStep Proofs.TcpBurstEmit Proofs.TcpBurstProofs.
+From SV Require Import Model.EgressLoop Proofs.EgressLoopProofs Proofs.TcpBurstLoop.
 From SV Require Import Proofs.TcpBurstExamples Proofs.TcpBurstInv.
 From SV Require Import Proofs.AssemblerProofs Proofs.TcpRecvBase Proofs.TcpRecvWindow Proofs.TcpRecvPayload Proofs.TcpRecvInv Proofs.TcpBurstRx.
 From SV Require Import Proofs.TcpSendTrace.
@@ -126,3 +127,42 @@ Print Assumptions C03_tcp_rx_ok_of_synced.
 Theorem C03_tcp_rx_ok_of_unsynced : forall s, rx_unsynced s -> rx_ok s.
 Proof. exact rx_ok_of_unsynced. Qed.
 Print Assumptions C03_tcp_rx_ok_of_unsynced.
+
+(* A dispatch that does NOT emit - nothing to send, or the emit closure refused the frame (device
+   exhausted, neighbor missing, fragmenter busy; [e] = false) - never increases the measure and keeps
+   the hypotheses.  The real dispatch runs its timer-driven part (retransmission rewind, rtte / cc
+   on_retransmit, timeout -> CLOSED) before the emit closure and keeps those changes when the emit
+   fails; [mu] is evaluated after that part, so a refused emit cannot raise it. *)
+Theorem C03_tcp_silent_step : forall cx s e s' out tags,
+  binv cx s -> tcp_dispatch cx s e = Ok (s', out, tags) -> (forall p, out <> DSent p) ->
+  mu cx s' <= mu cx s /\ (s_tuple s' = None \/ binv cx s').
+Proof. exact burst_silent_step. Qed.
+Print Assumptions C03_tcp_silent_step.
+
+(* Several TCP sockets sharing one poll: instance of C03_egress_loop_shared_env_returns
+   (Model/EgressLoop.v [poll_loop2]).  The shared environment E (device transmit budget, neighbor
+   cache, fragmenter) decides for every dispatch whether the emit closure succeeds ([can_emit]) and
+   whether a refusal is an exhausted device ([exhausted]: the pass over the sockets breaks); [pre] is
+   what the interface itself does before each pass; all three are arbitrary.  For every list of
+   sockets that have no connection or satisfy [binv], and more fuel than the sum of their burst
+   bounds, the loop returns after at most that many emitting passes. *)
+Theorem C03_tcp_socket_set_egress_returns :
+  forall (E : Type) (can_emit : E -> socket -> bool * E) (exhausted : E -> socket -> bool)
+         (pre : E -> E) (cx : ctx) fuel e ss,
+  Forall (sock_inv cx) ss -> (sum_bound cx ss < fuel)%nat ->
+  exists e' r n,
+    poll_loop2 E socket (tcp_dispatch2 E can_emit exhausted cx) pre fuel e ss = Some (e', r, n) /\
+    (n <= sum_bound cx ss)%nat /\ length r = length ss /\ Forall (sock_inv cx) r.
+Proof. exact tcp_socket_set_egress_returns. Qed.
+Print Assumptions C03_tcp_socket_set_egress_returns.
+
+(* Non-vacuity: two connected sockets (each with five segments to send) and a closed one behind a
+   device with a transmit budget: with 100 tokens the loop makes five emitting passes (ten frames);
+   with 3 tokens the second pass breaks at the exhausted device and the third emits nothing. *)
+Theorem C03_tcp_socket_set_example :
+  Forall (sock_inv (bx_cx 1000 1500)) set3 /\
+  sum_bound (bx_cx 1000 1500) set3 = 28%nat /\
+  set3_poll 100 = Some (90%nat, 5%nat, [1; 0; 1]) /\
+  set3_poll 3 = Some (0%nat, 2%nat, [4; 0; 5]).
+Proof. exact socket_set_example. Qed.
+Print Assumptions C03_tcp_socket_set_example.
